@@ -213,7 +213,7 @@ def _showl(lst):
 
 
 class Rig:
-    def __init__(self, kind, ids):
+    def __init__(self, kind, ids, ctor="arg"):
         from canopen.emcy import EmcyConsumer
         self.kind = kind
         self.ids = list(ids)
@@ -229,11 +229,15 @@ class Rig:
             self.net_c, self.port_c = self.hub.attach("consumers")
             self.locals = []
             self.remotes = []
-            for i in ids:
-                ln = canopen.LocalNode(i, canopen.ObjectDictionary())
+            for k, i in enumerate(ids):
+                lod, rod = canopen.ObjectDictionary(), canopen.ObjectDictionary()
+                if ctor == "od":
+                    # the node id is taken from the dictionary (constructor argument None / 0)
+                    lod.node_id = rod.node_id = i
+                ln = canopen.LocalNode((0, None)[k % 2] if ctor == "od" else i, lod)
                 self.net_p.add_node(ln)
                 self.locals.append(ln)
-                rn = canopen.RemoteNode(i, canopen.ObjectDictionary())
+                rn = canopen.RemoteNode((None, 0)[k % 2] if ctor == "od" else i, rod)
                 self.net_c.add_node(rn)
                 self.remotes.append(rn)
             self.consumers = [rn.emcy for rn in self.remotes]
@@ -420,7 +424,7 @@ def _run_ops(rig, ops, D):
 
 def _run_history(case):
     D = []
-    rig = Rig(case["rig"], case["ids"])
+    rig = Rig(case["rig"], case["ids"], case.get("ctor", "arg"))
     feat = _run_ops(rig, case["ops"], D)
     if case["kind"] == "interleave":
         klass = f"interleave/len{sum(1 for o in case['ops'] if o['op'] == 'frame')}"
@@ -758,6 +762,9 @@ def roundtrips():
     for code in codes:
         yield {"kind": "roundtrip", "rig": "bus", "ids": [5],
                "ops": pre + [{"op": "send", "node": 0, "code": code, "reg": 0, "data": b"", "form": "code"}]}
+        yield {"kind": "roundtrip", "rig": "bus", "ids": [5 + code % 100, 120], "ctor": "od",
+               "ops": pre + [{"op": "send", "node": 0, "code": code, "reg": 3, "data": b"\x01", "form": "all"},
+                             {"op": "send", "node": 1, "code": code, "reg": 0, "data": b"", "form": "code"}]}
     yield {"kind": "roundtrip", "rig": "bus", "ids": [5],
            "ops": pre + [{"op": "preset", "node": 0, "reg": 0, "data": b"", "form": "none"}]}
 
@@ -856,7 +863,8 @@ def history(draw, maxlen):
             rd = draw(st.binary(min_size=6, max_size=6))
             ops.append({"op": "preset", "node": node, "reg": rd[0], "data": rd[1:1 + dlen],
                         "form": _FORMS_RESET[form % 4]})
-    return {"kind": "history", "rig": rig, "ids": ids, "ops": ops}
+    return {"kind": "history", "rig": rig, "ids": ids, "ops": ops,
+            "ctor": "od" if (rig == "bus" and (ids[0] + len(ops)) % 4 == 0) else "arg"}
 
 
 class _Prng:
@@ -935,7 +943,8 @@ def expand_history(seed, n):
         else:
             ops.append({"op": "preset", "node": node, "reg": rd[0], "data": rd[1:1 + r.below(6)],
                         "form": _FORMS_RESET[r.below(4)]})
-    return {"kind": "history", "rig": rig, "ids": ids, "ops": ops}
+    return {"kind": "history", "rig": rig, "ids": ids, "ops": ops,
+            "ctor": "od" if (rig == "bus" and (ids[0] + len(ops)) % 4 == 0) else "arg"}
 
 
 def expanded_histories(maxlen):
